@@ -15,7 +15,7 @@ import (
 
 var sPure = map[string]bool{"Start": true, "End": true, "Step": true, "Dims": true, "Shape": true, "Strides": true,
 	"IsVector": true, "IsScalarEquiv": true, "IsScalar": true, "oshape": true, "ostrides": true, "Size": true, "len": true, "IsRowMajor": true, "IsColMajor": true,
-	"oldAP": true, "IsZero": true, "DataOrder": true, "IsMaterializable": true, "RequiresIterator": true, "IsView": true, "IsMasked": true, "IsContiguous": true, "IsNotContiguous": true, "HasSameOrder": true, "Info": true, "Dtype": true}
+	"oldAP": true, "IsZero": true, "DataOrder": true, "IsMaterializable": true, "RequiresIterator": true, "IsView": true, "IsMasked": true, "IsContiguous": true, "IsNotContiguous": true, "HasSameOrder": true, "Info": true, "Dtype": true, "transposeAxes": true, "parentTensor": true}
 
 func sCanon(rc *RC, fi *load.FuncInfo) (*ir.Canon, []*ir.Node) {
 	c := ir.NewCanon(rc.P.Fset, fi.Pkg.TypesInfo, ir.Options{ParamNames: true, KeepNames: true, PureCall: func(n string) bool { return sPure[n] }})
